@@ -28,9 +28,11 @@ package finisher
 //@   local marked *models.Item = nil
 //@   local ackedAtMark int = 0
 //@   local ackPending int = 0
-//@   after selrecv(inputCh)#1: nRecv = nRecv + ite(opOk, 1, 0); ackPending = 0
+//@   after selrecv(inputCh)#1: nRecv = nRecv + ite(opOk, 1, 0); ackPending = 0; fbFrozen = 0
 //@   after send(sourceProducedCh)#1: nProduced = nProduced + 1
-//@   after ReceiveFeedback(seed)#1: nFeedback = nFeedback + 1
+//@   after ReceiveFeedback(seed)#1: nFeedback = nFeedback + 1; fbFrozen = ite(opResult == reactor.ErrReactorFrozen, 1, 0)
+//@   local fbFrozen int = 0
+//@   assert panic(*): [not-on-freeze] @C03 fbFrozen == 0 // C03: a stop request issued at any moment returns without crashing (a feedback refused because the reactor was frozen by the stop is not a reason to panic)
 //@   after MarkAsFinished(seed)#1: nFinished = nFinished + 1; marked = seed; ackedAtMark = nAcked; ackPending = 1
 //@   after send(sourceFinishedCh)#1: nAcked = nAcked + 1; ackPending = 0
 //@   assert send(sourceProducedCh)#1: [fresh-only] seed.status == models.ItemFresh
